@@ -11,7 +11,7 @@
    For the unbuffered channel the exactly-once / liveness statements are false of the
    code: the *_refuted theorems give explicit schedules (replayed on the real z_chan.go by
    props/C10/check.py on every run). *)
-From LLGoV Require Import Lib.Common C10.Model C10.Proofs.
+From LLGoV Require Import Lib.Common C10.Model C10.Proofs C10.SelModel C10.SelProofs.
 
 (* the sequence of Go-level events of every execution is one that Go's channel
    semantics allows, and the ring buffer holds exactly the specification's queue *)
@@ -187,3 +187,88 @@ Theorem tryrecv_unbuffered_never_blocks_refuted :
     (exists th, nth_error (ths s) 0 = Some th /\ out th = [RSend true]).
 Proof. exists 0%nat, [[OSend 7%N; ORecv]; [OTryRecv]], [0;1;1;0;0;0;0;1;0]%nat. exact tryrecv_blocks. Qed.
 Print Assumptions tryrecv_unbuffered_never_blocks_refuted.
+
+(* ================================================================================= *)
+(* select: model C10/SelModel.v - several channels, Select / TrySelect / selectOp      *)
+(* registration next to the plain operations; [x_run sc (x_init caps progs)].         *)
+(* ================================================================================= *)
+
+(* every call - in particular every select - commits at most once, under every schedule,
+   any number of threads and channels: the number of commit events (a value entering or
+   leaving a channel: ESend / ERecv) a thread has caused never exceeds the number of its
+   finished calls plus one if the current call has already committed and is on its way
+   out (Broadcast, endSelect).  A select can therefore never take effect on two of its
+   cases, and a committed case is logged as the same event as the plain operation. *)
+Theorem select_commits_at_most_one_case : forall caps progs sc t th,
+  nth_error (xths (x_run sc (x_init caps progs))) t = Some th ->
+  commits t (xlog (x_run sc (x_init caps progs))) <= length (xout th) + inflight (xtpc th).
+Proof. exact calls_commit_at_most_once. Qed.
+Print Assumptions select_commits_at_most_one_case.
+
+Example select_nontrivial :
+  let s := x_run [0;0;1;1;0;0;0;0;1;1;1]%nat
+             (x_init [0;1]%nat [[XSelect [CRecv 0; CSend 1 7]]; [XPlain 1 ORecv; XTrySelect [CRecv 1; CSend 0 9]]]) in
+  map xout (xths s) = [[]; [XR (RRecv true 7)]] /\
+  map snd (xlog s) = [ESend 7%N; ERecv 7%N] /\
+  map xtpc (xths s) = [SEnd 1 (XSel 1 false 0); TTry 1].
+Proof. vm_compute. auto. Qed.
+
+(* "default only when no case was ready" is FALSE of TrySelect: the cases are probed one
+   after the other in separate critical sections.  Capacity 1: at every instant the
+   channel is not full (the send case is ready) or not empty (the receive case is ready),
+   yet the select with default reports that nothing was ready. *)
+Theorem select_default_only_if_none_ready_refuted :
+  exists caps progs sc, let s := x_run sc (x_init caps progs) in
+    progs = [[XTrySelect [CRecv 0; CSend 0 12%N]]; [XPlain 0 (OSend 13%N)]] /\ caps = [1]%nat /\
+    map xout (xths s) = [[XDefault]; [XR (RSend true)]] /\
+    map xchan_obs (xchs s) = [(0, 1, 0, 0, false, 0)]%nat.
+Proof.
+  exists [1]%nat, [[XTrySelect [CRecv 0; CSend 0 12%N]]; [XPlain 0 (OSend 13%N)]], [0;1;1;0]%nat.
+  split; [reflexivity|]. split; [reflexivity|]. exact w_default.
+Qed.
+Print Assumptions select_default_only_if_none_ready_refuted.
+
+(* no stuck pair is FALSE with select on unbuffered channels.  (1) two selects that
+   each offer a send and a receive on the same channel: both sleep on their private
+   condition variable for ever (a select does not accept select-senders on a channel it
+   also sends on, and nobody arms the hand-off flag) *)
+Theorem select_no_stuck_pair_refuted :
+  exists caps progs sc, let s := x_run sc (x_init caps progs) in
+    progs = [[XSelect [CRecv 0; CSend 0 11%N]]; [XSelect [CSend 0 12%N; CRecv 0]]] /\
+    (forall th, In th (xths s) -> x_enabled th = false) /\
+    map xtpc (xths s) = [SWaitW; SWaitW] /\ map xout (xths s) = [[]; []].
+Proof.
+  exists [0]%nat, [[XSelect [CRecv 0; CSend 0 11%N]]; [XSelect [CSend 0 12%N; CRecv 0]]],
+    [0;0;0;0;0;0;0;0;1;0;0;0;0;1;1;1;1;1;1;1]%nat.
+  split; [reflexivity|]. exact w_mirrored.
+Qed.
+Print Assumptions select_no_stuck_pair_refuted.
+
+(* (2) a blocking select armed the hand-off flag of channel 1 for a counted select-sender
+   that then served somebody else: it waits inside chanTryRecv for ever and cannot take
+   the value thread 2 wants to send on channel 0 *)
+Theorem select_partner_both_blocked_refuted :
+  exists caps progs sc, let s := x_run sc (x_init caps progs) in
+    (forall th, In th (xths s) -> x_enabled th = false) /\
+    (exists th, nth_error (xths s) 0 = Some th /\ xprog th = [XSelect [CRecv 0; CRecv 1]] /\ xtpc th = STry2W 1) /\
+    (exists th, nth_error (xths s) 2 = Some th /\ xprog th = [XPlain 0 (OSend 12%N)] /\ xtpc th = XSendW).
+Proof.
+  exists [0;0]%nat, [[XSelect [CRecv 0; CRecv 1]]; [XPlain 1 ORecv]; [XSelect [CSend 1 11%N; CRecv 0]; XPlain 0 (OSend 12%N)]],
+    [0;1;2;2;1;0;2;0;0;2;1;0;0;2;0;2;0;2;0;2]%nat.
+  exact w_stuck_pair.
+Qed.
+Print Assumptions select_partner_both_blocked_refuted.
+
+(* a select with default can block for ever: it armed the hand-off flag for a registered
+   select-sender, which then gave its value to another receiver *)
+Theorem tryselect_never_blocks_refuted :
+  exists caps progs sc, let s := x_run sc (x_init caps progs) in
+    (forall th, In th (xths s) -> x_enabled th = false) /\
+    exists th, nth_error (xths s) 1 = Some th /\ xprog th = [XTrySelect [CRecv 0; CSend 0 14%N]] /\
+               xtpc th = TTry2W 0 /\ xpark th = Some (OnChan 0) /\ xslots th = [0%N; 0%N].
+Proof.
+  exists [0;0]%nat, [[XSelect [CSend 1 11%N; CSend 0 12%N]; XPlain 1 (OSend 13%N)]; [XTrySelect [CRecv 0; CSend 0 14%N]]; [XPlain 0 ORecv]],
+    [0;2;2;0;0;0;2;0;1;1;0;0;0;1]%nat.
+  exact w_tryselect_blocks.
+Qed.
+Print Assumptions tryselect_never_blocks_refuted.
